@@ -55,9 +55,9 @@ Section Fetcher.
     | None =>
       match o with
       | FSize n =>
-        match f_size s with
+        match (match f_size s with Some n0 => if n0 <? 2 then None else Some n0 | None => None end) with
         | Some _ => s                                         (* a different size only closes that connection *)
-        | None => if (n =? 0) || (67108864 <? n) then s else mkF (f_want s) (Some n) [] None
+        | None => if (n =? 0) || (67108864 <? n) then s else mkF (f_want s) (Some n) [] None   (* size_bytes() < 2 counts as unknown *)
         end
       | FReject _ => s
       | FData p b =>
@@ -86,7 +86,7 @@ Section Fetcher.
   Proof.
     intros s o. unfold fstep. destruct (f_done s); [reflexivity|].
     destruct o as [n|p b|p]; try reflexivity.
-    - destruct (f_size s); [reflexivity|]. destruct ((n =? 0) || (67108864 <? n)); reflexivity.
+    - destruct (match f_size s with Some n0 => if n0 <? 2 then None else Some n0 | None => None end); [reflexivity|]. destruct ((n =? 0) || (67108864 <? n)); reflexivity.
     - destruct (f_size s) as [sz|]; [|reflexivity].
       match goal with |- context [if ?c then _ else _] => destruct c end; [|reflexivity].
       destruct (assemble _ _); [|reflexivity]. destruct (list_eq_dec _ _ _); reflexivity.
@@ -99,7 +99,7 @@ Section Fetcher.
     intros s o Inv d Hd. rewrite fstep_want. unfold fstep in Hd.
     destruct (f_done s) as [d0|] eqn:E0. { apply Inv. rewrite <- E0. exact Hd. }
     destruct o as [n|p b|p]; cbn in Hd.
-    - destruct (f_size s); [rewrite E0 in Hd; discriminate Hd|].
+    - destruct (match f_size s with Some n0 => if n0 <? 2 then None else Some n0 | None => None end); [rewrite E0 in Hd; discriminate Hd|].
       destruct ((n =? 0) || (67108864 <? n)); [rewrite E0 in Hd|]; discriminate Hd.
     - destruct (f_size s) as [sz|]; [|rewrite E0 in Hd; discriminate Hd].
       match type of Hd with context [if ?c then _ else _] => destruct c end; [|rewrite E0 in Hd; discriminate Hd].
@@ -132,23 +132,23 @@ Section Fetcher.
   Qed.
   (* the first-peer-metadata_size-wins mechanism (DownloadMain::set_metadata_size): once a size in
      1..2^26 has been accepted, no later handshake, data or reject changes it. A first peer that lies
-     about the size therefore fixes a size for which no metadata with the requested hash exists:
+     about the size (any value from 2 up) therefore fixes a size for which no metadata with the requested hash exists:
      safety is untouched (magnet_completes_only_verified), completion becomes impossible — an
      observation about liveness, which C20 does not claim. *)
-  Lemma fstep_size_stable : forall s o n, f_size s = Some n -> f_size (fstep s o) = Some n.
+  Lemma fstep_size_stable : forall s o n, 2 <= n -> f_size s = Some n -> f_size (fstep s o) = Some n.
   Proof.
-    intros s o n Hs. unfold fstep. destruct (f_done s); [exact Hs|].
+    intros s o n Hn Hs. unfold fstep. destruct (f_done s); [exact Hs|].
     destruct o as [m|p b|p]; try exact Hs.
-    - rewrite Hs. exact Hs.
+    - rewrite Hs. assert ((n <? 2) = false) as -> by (apply N.ltb_ge; exact Hn). exact Hs.
     - rewrite Hs.
       match goal with |- context [if ?c then _ else _] => destruct c end; [|exact Hs].
       destruct (assemble _ _); [|reflexivity]. destruct (list_eq_dec _ _ _); reflexivity.
   Qed.
 
-  Theorem first_size_wins : forall ops s n, f_size s = Some n -> f_size (fold_left fstep ops s) = Some n.
+  Theorem first_size_wins : forall ops s n, 2 <= n -> f_size s = Some n -> f_size (fold_left fstep ops s) = Some n.
   Proof.
-    induction ops as [|o r IH]; intros s n Hs; cbn [fold_left]; [exact Hs|].
-    apply IH. apply fstep_size_stable. exact Hs.
+    induction ops as [|o r IH]; intros s n Hn Hs; cbn [fold_left]; [exact Hs|].
+    apply IH; [exact Hn|]. apply fstep_size_stable; assumption.
   Qed.
 
   Theorem first_size_accepted : forall want n, 0 < n -> n <= 67108864 ->
